@@ -828,3 +828,171 @@ Proof.
     - vm_compute. intros X. repeat (destruct X as [X|X]; [discriminate X|]). exact X. }
   destruct Hk as (k & Hn & Hin & Hnot). exact (Hnot (Hb 10 k _ Hin Hn)).
 Qed.
+
+(* ------------------------------------------------------------------------------------------ *)
+(* 10. documents produced by AnalyzedSource::new: the well-formedness predicate reduces to the   *)
+(*     condition on declaration names                                                            *)
+
+Local Open Scope nat_scope.
+
+Definition name_range (n : option ident) : option (nat * nat) :=
+  match n with Some i => Some (i_s (id_info i), i_e (id_info i)) | None => None end.
+
+(* everything [decls_wf_b] looks at *)
+Definition shape (go : gdecl * nat) : nat * nat * nat * option (nat * nat) :=
+  (snd go, i_s (gdecl_info (fst go)), i_e (gdecl_info (fst go)), name_range (gdecl_name (fst go))).
+
+Lemma name_is_ident_shape toks off n1 n2 :
+  name_range n1 = name_range n2 -> name_is_ident toks off n1 = name_is_ident toks off n2.
+Proof.
+  destruct n1 as [a|], n2 as [b|]; cbn [name_range]; try discriminate; [|reflexivity].
+  intros [= H1 H2]. cbn [name_is_ident]. now rewrite H1, H2.
+Qed.
+
+Lemma decls_wf_b_shape toks : forall l1 l2 lo,
+  map shape l1 = map shape l2 -> decls_wf_b toks lo l1 = decls_wf_b toks lo l2.
+Proof.
+  induction l1 as [|[g1 o1] r1 IH]; intros [|[g2 o2] r2] lo H; cbn [map] in H; try discriminate; [reflexivity|].
+  injection H as Ho Hs1 He1 Hn Hr. subst o2.
+  cbn [decls_wf_b]. rewrite Hs1, He1, (name_is_ident_shape toks o1 _ _ Hn). now rewrite (IH r2 _ Hr).
+Qed.
+
+Lemma decls_ordered_b_shape n : forall l1 l2 lo,
+  map shape l1 = map shape l2 -> decls_ordered_b n lo l1 = decls_ordered_b n lo l2.
+Proof.
+  induction l1 as [|[g1 o1] r1 IH]; intros [|[g2 o2] r2] lo H; cbn [map] in H; try discriminate; [reflexivity|].
+  injection H as Ho Hs1 He1 Hn Hr. subst o2.
+  cbn [decls_ordered_b]. rewrite Hs1, He1. now rewrite (IH r2 _ Hr).
+Qed.
+
+Lemma ident_flag_range i m i' :
+  ident_flag i m = ROk i' -> name_range (Some i') = name_range (Some i).
+Proof.
+  unfold ident_flag, to_error. destruct (Nat.eqb (i_e (id_info i)) 0); cbn [rbind]; [discriminate|].
+  intros [= <-]. reflexivity.
+Qed.
+
+Lemma build_typedecl_shape d t off d' t' :
+  build_typedecl d t off = ROk (d', t') -> td_info d' = td_info d /\ name_range (td_name d') = name_range (td_name d).
+Proof.
+  unfold build_typedecl. destruct (td_name d) as [name|] eqn:En; [|intros [= <- <-]; now rewrite En].
+  destruct (text_eqb (id_val name) s_main).
+  - destruct (ident_flag name _) as [name'|] eqn:Ef; cbn [rbind]; [|discriminate].
+    intros [= <- <-]. cbn [td_info td_name]. split; [reflexivity | exact (ident_flag_range _ _ _ Ef)].
+  - destruct (get_data_type None (Some t) (Some (id_val name)) (td_ty d)) as [[ty' dt]|]; cbn [rbind]; [|discriminate].
+    destruct (enter t (id_val name) _) as [table' ok].
+    destruct ok; cbn [rbind].
+    + intros [= <- <-]. split; reflexivity.
+    + destruct (ident_flag name _) as [name'|] eqn:Ef; cbn [rbind]; [|discriminate].
+      intros [= <- <-]. cbn [td_info td_name]. split; [reflexivity | exact (ident_flag_range _ _ _ Ef)].
+Qed.
+
+Lemma build_procdecl_shape d t off d' t' :
+  build_procdecl d t off = ROk (d', t') -> pd_info d' = pd_info d /\ name_range (pd_name d') = name_range (pd_name d).
+Proof.
+  unfold build_procdecl. destruct (pd_name d) as [name|] eqn:En; [|intros [= <- <-]; now rewrite En].
+  destruct (build_parameters _ _ _ _) as [[[params' local1] parameters]|]; cbn [rbind]; [|discriminate].
+  destruct (build_variables _ _ _ _) as [[vars' local2]|]; cbn [rbind]; [|discriminate].
+  destruct (enter t (id_val name) _) as [table' ok].
+  destruct ok; cbn [rbind].
+  - intros [= <- <-]. split; reflexivity.
+  - destruct (ident_flag name _) as [name'|] eqn:Ef; cbn [rbind]; [|discriminate].
+    intros [= <- <-]. cbn [pd_info pd_name]. split; [reflexivity | exact (ident_flag_range _ _ _ Ef)].
+Qed.
+
+Lemma build_gdecls_shape : forall ds t off ds' t',
+  build_gdecls ds t off = ROk (ds', t') -> map shape ds' = map shape ds.
+Proof.
+  induction ds as [|[g o] r IH]; intros t off ds' t' H; cbn [build_gdecls] in H.
+  - injection H as <- <-. reflexivity.
+  - destruct (build_gdecl g t (off + o)) as [[g' t1]|] eqn:Eg; cbn [rbind] in H; [|discriminate].
+    destruct (build_gdecls r t1 off) as [[r' t2]|] eqn:Er; cbn [rbind] in H; [|discriminate].
+    injection H as <- <-. cbn [map]. rewrite (IH _ _ _ _ Er). f_equal.
+    unfold shape; cbn [fst snd]. unfold build_gdecl in Eg.
+    destruct g as [td | pd | inf].
+    + destruct (build_typedecl td t (off + o)) as [[td' t1']|] eqn:E; cbn [rbind] in Eg; [|discriminate].
+      injection Eg as <- <-. apply build_typedecl_shape in E as [Hi Hn]. cbn [gdecl_info gdecl_name]. now rewrite Hi, Hn.
+    + destruct (build_procdecl pd t (off + o)) as [[pd' t1']|] eqn:E; cbn [rbind] in Eg; [|discriminate].
+      injection Eg as <- <-. apply build_procdecl_shape in E as [Hi Hn]. cbn [gdecl_info gdecl_name]. now rewrite Hi, Hn.
+    + injection Eg as <- <-. reflexivity.
+Qed.
+
+Lemma build_res_shape p p1 table : build_res p = ROk (p1, table) -> map shape (pg_decls p1) = map shape (pg_decls p).
+Proof.
+  unfold build_res, build_program.
+  destruct (build_gdecls (pg_decls p) initialized 0) as [[ds' t']|] eqn:E; cbn [rbind]; [|discriminate].
+  apply build_gdecls_shape in E.
+  destruct (lookup t' s_main) as [[te|main]|]; [discriminate | |].
+  - destruct (pe_params main).
+    + intros [= <- <-]. exact E.
+    + destruct (to_error _ _); cbn [rbind]; [|discriminate]. intros [= <- <-]. exact E.
+  - intros [= <- <-]. exact E.
+Qed.
+
+Lemma analyze_gdecl_shape table d d' : analyze_gdecl table d = ROk d' -> shape d' = shape d.
+Proof.
+  destruct d as [g off]. unfold analyze_gdecl. destruct g as [td | pd | inf]; try (intros [= <-]; reflexivity).
+  destruct (pd_name pd) as [name|] eqn:En; [|intros [= <-]; reflexivity].
+  destruct (lookup table (id_val name)) as [[te|pe]|]; [intros [= <-]; reflexivity | | discriminate].
+  destruct (negb _); [intros [= <-]; reflexivity|].
+  destruct (an_stmts _ _ _) as [stmts'|]; cbn [rbind]; [|discriminate].
+  intros [= <-]. unfold shape; cbn [fst snd gdecl_info gdecl_name pd_info pd_name]. now rewrite En.
+Qed.
+
+Lemma analyze_gdecls_shape table : forall ds ds', analyze_gdecls table ds = ROk ds' -> map shape ds' = map shape ds.
+Proof.
+  induction ds as [|d r IH]; intros ds' H; cbn [analyze_gdecls] in H.
+  - injection H as <-. reflexivity.
+  - destruct (analyze_gdecl table d) as [d1|] eqn:E1; cbn [rbind] in H; [|discriminate].
+    destruct (analyze_gdecls table r) as [r1|] eqn:E2; cbn [rbind] in H; [|discriminate].
+    injection H as <-. cbn [map]. now rewrite (analyze_gdecl_shape _ _ _ E1), (IH _ eq_refl).
+Qed.
+
+Lemma lex_eof_last s toks : lex s = Some toks -> EofLast toks.
+Proof.
+  intros H. destruct (tiles_last_eof 0 s toks (lex_tiles s toks H)) as (body & -> & HF).
+  exists body, {| tk := Eof; ts := (0 + blen s)%N; te := (0 + blen s)%N; terr := [] |}. repeat split; assumption.
+Qed.
+
+(* for a document produced by AnalyzedSource::new, the well-formedness predicate holds as soon as
+   the names of the declarations end with identifier tokens *)
+Theorem new_doc_wf t d :
+  new_doc t = Done d -> doc_wf_b d = decls_names_b (d_toks d) (pg_decls (d_ast d)).
+Proof.
+  unfold new_doc, new_doc_res. destruct (lex t) as [toks|] eqn:El; [|discriminate].
+  destruct (parse toks) as [p| |] eqn:Ep; try discriminate.
+  destruct (build_res p) as [[p1 table]|] eqn:Eb; [|discriminate].
+  destruct (analyze_res p1 table) as [p2|] eqn:Ea; [|discriminate].
+  cbn [ores_outcome]. intros [= <-]. unfold doc_wf_b; cbn [d_text d_toks d_ast].
+  rewrite (lex_toks_wf t toks El), decls_wf_split. cbn [andb].
+  assert (Hs : map shape (pg_decls p2) = map shape (pg_decls p)).
+  { unfold analyze_res in Ea. destruct (analyze_gdecls table (pg_decls p1)) as [ds'|] eqn:E; cbn [rbind] in Ea; [|discriminate].
+    injection Ea as <-. cbn [pg_decls]. rewrite (analyze_gdecls_shape _ _ _ E). exact (build_res_shape _ _ _ Eb). }
+  pose proof (parse_decls_ordered toks p (lex_eof_last t toks El) Ep) as Ho.
+  assert (Ho2 : decls_ordered_b (length toks) 0 (pg_decls p2) = true).
+  { rewrite (decls_ordered_b_shape _ _ _ 0 Hs). exact Ho. }
+  now rewrite Ho2.
+Qed.
+
+(* everything together for the documents the server actually holds *)
+Theorem new_doc_stream t d :
+  new_doc t = Done d -> decls_names_b (d_toks d) (pg_decls (d_ast d)) = true ->
+  exists data,
+    semantic_tokens d = SOk data /\
+    decode data = map (tok_view t) (emitted d) /\
+    Subseq (map fst (emitted d)) (d_toks d) /\
+    StronglySorted (fun a b => pos_lt (at_pos a) (at_pos b)) (decode data) /\
+    Forall lex_ok (emitted d).
+Proof.
+  intros Hn Hnames. pose proof (new_doc_wf t d Hn) as Hwf. rewrite Hnames in Hwf.
+  assert (Ht : d_text d = t).
+  { unfold new_doc, new_doc_res in Hn. destruct (lex t) as [tk0|]; [|discriminate].
+    destruct (parse tk0) as [p0| |]; try discriminate.
+    destruct (build_res p0) as [[p1 tb]|]; [|discriminate]. destruct (analyze_res p1 tb); [|discriminate].
+    cbn in Hn. now injection Hn as <-. }
+  destruct (semtok_no_panic d Hwf) as [data Hd]. exists data.
+  destruct (semtok_coincide d data Hwf Hd) as [H1 H2]. rewrite Ht in H1.
+  repeat split; try assumption.
+  - exact (semtok_increasing d data Hwf Hd).
+  - exact (semtok_lexical_class d Hwf).
+Qed.
